@@ -38,6 +38,19 @@ def outcome(entry, text):
             if not _SHARED_GATES:
                 _SHARED_GATES.update(jaqal_gates.ALL_GATES)
             c = parse_jaqal_string(text, inject_pulses=_SHARED_GATES, autoload_pulses=False)
+        elif entry == "parse-expand":
+            from jaqalpaq.parser import parse_jaqal_string
+
+            c = parse_jaqal_string(text, autoload_pulses=False, expand_macro=True, expand_let=True)
+        elif entry == "parse-inj-load":
+            # injected definitions TOGETHER with loading the program's pulse modules (injected
+            # names take precedence; the modules themselves must stay as they are)
+            from jaqalpaq.parser import parse_jaqal_string
+            from vlib.pulses.moda import jaqal_gates
+
+            if not _SHARED_GATES:
+                _SHARED_GATES.update(jaqal_gates.ALL_GATES)
+            c = parse_jaqal_string(text, inject_pulses=_SHARED_GATES, autoload_pulses=True, import_path=PULSE_DIR)
         elif entry == "parse-rel":
             from jaqalpaq.parser import parse_jaqal_string
 
